@@ -37,6 +37,8 @@ LEAVES = {
     "pvacR": {"vac": [("D2", "D4")]},
     "pleave": {"gl": [("holiday", "D3", None)]},
     "booking": {"res": [{"k": "booking", "a": "D1-09:00", "b": "+6h"}]},
+    "span-start": {"res": [{"k": "leaves", "type": "annual", "a": "B5", "b": "D2"}]},      # begins 5 days before the project start
+    "pspan-start": {"gl": [("holiday", "B3", "D1")]},
 }
 
 
@@ -50,6 +52,8 @@ def _day(start, n, suffix=""):
 def _subst(start, s):
     if s is None:
         return None
+    if s.startswith("B"):
+        return _day(start, -int(s[1]), s[2:])
     for n in (1, 2, 3, 4):
         tag = f"D{n}"
         if s.startswith(tag):
